@@ -32,7 +32,7 @@ Qed.
 Lemma c20_oracle_sound gn t c :
   c20_valid gn t c -> c20_check t c = true -> c20_oracle gn t c = None.
 Proof.
-  destruct c as [reg0 g es obs|g sites es obs|site e obs|r o alloc h p lst|cc n]; simpl.
+  destruct c as [reg0 g es obs|g sites es obs|site e obs|r o alloc h p lst|cc n|idn]; simpl.
   - reflexivity.
   - intros (gn' & -> & Hg & Hv & Hc). rewrite andb_true_iff. intros [Hi Ho].
     apply outcomes_eqb_eq in Ho. subst obs. subst gn'.
@@ -44,6 +44,7 @@ Proof.
     unfold check in Hc. rewrite forallb_forall in Hc. rewrite (Hc r (find_row_In _ _ _ E)). reflexivity.
   - intros [].
   - reflexivity.
+  - intros -> _. reflexivity.
 Qed.
 
 (* what the watch server does on a client cancel, as transcribed: two Canceled responses for one watch
